@@ -61,13 +61,29 @@ def main():
             demo_cmd = demo_cmd.replace("go test", "go test -count=1", 1)
         res["demo_cmd"] = demo_cmd
 
+        # demos delivered in sub-directories named after their package (fs_ggml/ -> fs/ggml/)
+        subdemos = []
+        for sd in glob.glob(os.path.join(src, "*/")):
+            name = os.path.basename(sd.rstrip("/"))
+            for cand in (name, name.replace("_", "/")):
+                if os.path.isdir(os.path.join(wt, cand)):
+                    for f in glob.glob(os.path.join(sd, "*.go")):
+                        subdemos.append((f, os.path.join(wt, cand)))
+                    break
+
         def place():
             for d in demos:
                 shutil.copy(d, pkgdir)
+            for f, dst in subdemos:
+                shutil.copy(f, dst)
 
         def unplace():
             for d in demos:
                 p = os.path.join(pkgdir, os.path.basename(d))
+                if os.path.exists(p):
+                    os.remove(p)
+            for f, dst in subdemos:
+                p = os.path.join(dst, os.path.basename(f))
                 if os.path.exists(p):
                     os.remove(p)
 
@@ -121,6 +137,8 @@ def main():
                 for f in glob.glob(os.path.join(src, "*")):
                     if os.path.isfile(f):
                         shutil.copy(f, dst)
+                    elif os.path.isdir(f):
+                        shutil.copytree(f, os.path.join(dst, os.path.basename(f)), dirs_exist_ok=True)
             meta.update({"property": pid, "confirmed_by_lead": {k: res[k] for k in
                          ("repo_head", "demo_cmd", "demo_pkg", "demo_passes_without", "builds", "touched_packages",
                           "existing_tests_pass", "demo_fails_with")},
